@@ -7,7 +7,7 @@
    (= [valid_filter_spec s] by C30_filter) and [is_shared_filter]. *)
 From Coq Require Import String.
 From MV Require Import Base.Val Topics.Valid Topics.ValidProofs Findings.FixedC30.
-From MV Require Hooks.Chain Auth.Acl Auth.AclProofs.
+From MV Require Hooks.Chain Auth.Acl Auth.AclProofs Topics.PubValid Topics.PubValidProofs.
 Import VLevels.
 Open Scope N_scope.
 Open Scope list_scope.
@@ -90,6 +90,43 @@ Proof.
   intros st c o Hr. exact (AclProofs.subinvalid_creates_nothing perm matches valid is_shared eff ob st c f o Hr Hv).
 Qed.
 
+(* Server-level publish clause: on every way a topic name reaches processPublish — plain, with a fresh
+   topic alias, with an already bound alias and a non-empty name (re-bind), alias-only — and for every
+   history of PUBLISH packets on a connection, every QoS, retain flag, protocol version and alias
+   maximum: whatever the model of processPublish (Topics/PubValid.v) routes, retains or delivers is a
+   non-empty name the specification accepts (so an invalid name is never routed, never retained and
+   never bound to an alias: a later alias-only publish cannot resolve to it). *)
+Theorem C30_publish_never_invalid : forall ver smax es,
+  Forall (fun eo => forall n,
+            In n (PubValid.o_published (snd eo)) \/ In n (PubValid.o_retained (snd eo)) \/ In n (PubValid.o_spy (snd eo)) ->
+            valid_pub_topic_spec n = true /\ n <> [])
+         (PubValid.model_run ver smax [] es).
+Proof. intros ver smax es. apply (PubValidProofs.model_never_invalid ver smax es []). constructor. Qed.
+
+(* ... and the model's behaviour satisfies the specification monitor the run-time checker applies to
+   the real broker (accepted names are routed once under their own name, retained iff the retain flag
+   is set, acknowledged positively; refused names are not, MQTT 5 acknowledgements carry an error code). *)
+Theorem C30_publish_monitor : forall ver smax es, smax <> 0 ->
+  fst (PubValid.monitor ver [] (PubValid.model_run ver smax [] es)) = true /\
+  PubValid.corr ver smax [] (PubValid.model_run ver smax [] es) = true.
+Proof. intros ver smax es H. apply (PubValidProofs.model_satisfies_monitor ver smax es [] H). constructor. Qed.
+
+(* non-vacuity: bind alias 1 to "ok", try to re-bind it to "$SYS" and "a/#" (refused: nothing routed,
+   QoS 1 answered 0x90), alias-only still resolves to "ok"; the monitor rejects an observation in which
+   the re-bind went through *)
+Definition ev (t : string) (a q : N) (r : bool) : PubValid.pev := PubValid.Build_pev (bytes_of_string t) a q r.
+Arguments ev t%string_scope a q r.
+Example C30_publish_nonvacuous :
+  map (fun eo => (PubValid.o_published (snd eo), PubValid.o_reason (snd eo)))
+      (PubValid.model_run 5 65535 [] [ev "ok" 1 0 false; ev "$SYS" 1 1 true; ev "a/#" 1 0 false; ev "" 1 1 true])
+  = [([bytes_of_string "ok"], 0); ([], 144); ([], 0); ([bytes_of_string "ok"], 0)] /\
+  fst (PubValid.monitor 5 []
+        [(ev "ok" 1 0 false, PubValid.Build_pobs [bytes_of_string "ok"] [] [] 0 0 false);
+         (ev "$SYS" 1 0 true, PubValid.Build_pobs [bytes_of_string "$SYS"] [bytes_of_string "$SYS"] [] 0 0 false)]) = false.
+Proof. vm_compute. split; reflexivity. Qed.
+
+Print Assumptions C30_publish_never_invalid.
+Print Assumptions C30_publish_monitor.
 Print Assumptions C30_filter.
 Print Assumptions C30_topic.
 Print Assumptions C30_shared.
